@@ -993,6 +993,7 @@ async fn client_main(io: Io, case: Rc<PairCase>, ctx: Ctx, cmds: Rc<RefCell<CmdQ
         let cmds2 = cmds.clone();
         ctx.sp.spawn("client-conn", Group::ClientConn, async move {
             let mut conn = Some(conn);
+            let mut moved = false;
             poll_fn(|cx| {
                 let mut drop_it = false;
                 {
@@ -1012,7 +1013,20 @@ async fn client_main(io: Io, case: Rc<PairCase>, ctx: Ctx, cmds: Rc<RefCell<CmdQ
                 }
                 let polled = {
                     let _t = crate::heapmeter::Tracked::new();
-                    std::pin::Pin::new(conn.as_mut().unwrap()).poll(cx)
+                    // (the very first poll happens under another waker, as when a connection is polled once where it was
+                    // created and then moved into its own task: the waker of the latest poll is the one that counts)
+                    let mut early = Poll::Pending;
+                    if !moved {
+                        moved = true;
+                        let w = crate::mockio::noop_waker();
+                        let mut cx0 = std::task::Context::from_waker(&w);
+                        early = std::pin::Pin::new(conn.as_mut().unwrap()).poll(&mut cx0);
+                    }
+                    if early.is_ready() {
+                        early
+                    } else {
+                        std::pin::Pin::new(conn.as_mut().unwrap()).poll(cx)
+                    }
                 };
                 match polled {
                     Poll::Ready(r) => {
